@@ -49,10 +49,11 @@ ASSUMPTIONS = [
     'structural: close() is called at most once and not from a registered thread',
     'contract of close() ("to be called after all threads are registered"): NOT built into the labels; the theorems '
     'and the oracle speak about the threads whose register() had returned when close() was called '
-    '(registered_before_close) AND about the threads whose register() returned later but while close() was still '
-    'waiting for one of those (registered_while_close_waits: C18_late_registration_*, oracle covered_late); only a '
-    'thread that registers after everything close() waits for has been called back may miss its callback '
-    '(C18_late_registration_example_boundary)',
+    '(registered_before_close) AND, generally, about every thread whose register() returned before the monitor thread '
+    'ended (registered_before_monitor_exit: C18_late_registration_general_*, oracle late_classes / covered_late; it '
+    'includes registered_while_close_waits = one generation of late threads, chains of late threads and a close() '
+    'called with nothing registered); only a thread whose register() returns after the monitor thread ended may miss '
+    'its callback (C18_late_registration_general_example_boundary)',
     'harness threads hash to their index so that CPython iterates the set in ascending index order like the model '
     '(iteration order does not influence whether a callback is lost)',
     'the `done` callback is given; it may raise',
@@ -426,10 +427,54 @@ def execute(env, schedule, raises=(), fine=False, drain=True):
         run.stop()
         sys.settrace(old)
     return dict(labels=labels, outs=outs, events=run.events, final_active=final_active, error=err,
-                raises=sorted(raises))
+                raises=sorted(raises), fine=bool(fine))
 
 
 # ---------------------------------------------------------------- oracle (thread half; independent of the model)
+
+def late_classes(r) -> dict:
+    """thread -> 'before' (register() returned before close() was called) | 'late' (after the call, while close() was
+    still waiting for a 'before' thread that had not been called back: Coq registered_while_close_waits) | 'chain'
+    (after the call, before the monitor thread ended, not 'late': e.g. while close() waited only for another late
+    thread, or close() was called with nothing registered) | 'outside' (register() returned after the monitor thread
+    ended: outside the contract of close(), never called back by the correct code).
+
+    'Before the monitor thread ended' (Coq: registered_before_monitor_exit = EvRegistered while no EvMonExit) is decided
+      * access-granularity runs (the steps ARE the model's labels; 'registered' / 'mon-exit' are reported in the step of
+        the releasing access, like EvRegistered / EvMonExit): position of 'registered' < position of 'mon-exit' -- exactly
+        the definition;
+      * every-opcode runs, or no 'mon-exit' observed: a criterion IMPLIED by the definition (never more): some thread u
+        registered earlier, itself covered, had not been called back when t's register() returned (u is owed its
+        callback, so the monitor has not passed its final check; t's add precedes the return of its register())."""
+    ev = r['events']
+    reg_at, first_cb = {}, {}
+    close_called = mon_exit = None
+    for p, e in enumerate(ev):
+        k = e[0]
+        if k == 'registered':
+            reg_at[e[1]] = p
+        elif k == 'cb':
+            first_cb.setdefault(e[1], p)
+        elif k == 'close-called':
+            close_called = p
+        elif k == 'mon-exit':
+            mon_exit = p
+    res = {}
+    order = sorted(reg_at, key=reg_at.get)
+    for t in order:
+        if close_called is None or reg_at[t] < close_called:
+            res[t] = 'before'
+            continue
+        owed = [u for u in order if reg_at[u] < reg_at[t] and res[u] != 'outside'
+                and (u not in first_cb or first_cb[u] > reg_at[t])]
+        if any(res[u] == 'before' for u in owed):
+            res[t] = 'late'
+        elif not r.get('fine') and mon_exit is not None:
+            res[t] = 'chain' if reg_at[t] < mon_exit else 'outside'
+        else:
+            res[t] = 'chain' if owed else 'outside'
+    return res
+
 
 def oracle_thread(r) -> list:
     """The property text on the observed event log of one COMPLETE run of the real class
@@ -456,18 +501,14 @@ def oracle_thread(r) -> list:
             mon_exit = (p, e[1])
     set_changed = (mon_exit is not None and mon_exit[1] == ['set-changed'])
 
+    cls_of = late_classes(r)
+
     def covered_late(t):
-        """t registered after close() was called, but while close() was still waiting for a thread u registered BEFORE the
-        call whose callback had not yet been invoked: the monitor cannot have made its final check, so t is monitored like
-        any other ("no matter when other threads register")"""
-        if close_called is None or reg_at[t] < close_called:
-            return False
-        for u in reg_at:
-            if reg_at[u] < close_called:
-                first_cb = next((p for (p, w, _) in cbs if w == u), None)
-                if first_cb is None or first_cb > reg_at[t]:
-                    return True
-        return False
+        """t's register() returned after close() was called but BEFORE THE MONITOR THREAD ENDED (Coq:
+        registered_before_monitor_exit, C18_late_registration_general_*): the monitor cannot have made its final
+        check without seeing t, so t is monitored like any other ("no matter when other threads register") -- any
+        number of generations of late threads, and a close() called with nothing registered yet"""
+        return cls_of.get(t) in ('late', 'chain')
 
     fin = set(r['final_active'])
     if close_ret is None:
@@ -475,12 +516,13 @@ def oracle_thread(r) -> list:
     for t in sorted(reg_at):
         n = sum(1 for (_, u, _) in cbs if u == t)
         if n == 0 and close_called is not None and reg_at[t] > close_called and not covered_late(t):
-            continue        # registered after close() was called and after everything close() waits for: outside the contract of close()
+            continue        # register() returned after the monitor thread ended: outside the contract of close()
         if n == 0:
             if close_called is not None and reg_at[t] > close_called and not set_changed:
                 bad.append(('thread:registration-during-close-dropped',
-                            f'thread {t} registered while close() was still waiting for an earlier thread that had not been called '
-                            f'back; it ended but its callback was never invoked'
+                            f'thread {t} registered after close() was called but before the monitor thread ended '
+                            f'({"while close() was still waiting for a thread registered before the call" if cls_of.get(t) == "late" else "chain-late: close() was waiting only for other late threads, or for nothing yet"}); '
+                            f'it ended but its callback was never invoked'
                             + (' and close() returned without waiting for it' if close_ret and died_at.get(t, 1 << 30) > close_ret[0] else '')))
             elif set_changed:
                 bad.append(('thread:set-changed-size',
@@ -648,6 +690,44 @@ def exhaustive_schedules(k1, k2, d1s, kc, kf):
         m = expand(m, 1)
         i = m.index(blk)
         yield 'close-late', [], [S('M')] * 8 + m[:i] + [['close'], S('C'), S('C'), S('C')] + m[i + 1:]
+
+
+def late_chain_schedule(rng, nthreads):
+    """close() is called early (with 0-2 threads registered, possibly none), then a CHAIN of late arrivals: thread k+1
+    starts registering while thread k is still alive / its callback is pending, with random monitor progress in between
+    (so some of them land after the monitor thread ended); labels that are not enabled are no-ops on both sides"""
+    lab = []
+    nbefore = rng.choice([0, 0, 1, 1, 2])
+    nbefore = min(nbefore, nthreads - 1)
+    for t in range(1, nbefore + 1):
+        lab += [['arrive', t]] + [S(t)] * 4
+    lab += [S('M')] * rng.randint(0, 20)
+    for t in range(1, nbefore + 1):
+        if rng.random() < 0.3:
+            lab.append(['die', t])
+    lab += [['close']] + [S('C')] * rng.choice([3, 4, 4, 4])
+    alive = [t for t in range(1, nbefore + 1)]
+    for t in range(nbefore + 1, nthreads + 1):
+        lab += [S('M')] * rng.choice([0, 0, 2, 3, 5, 8, 10, 13, rng.randint(0, 24)])
+        reg = [['arrive', t]] + [S(t)] * 4
+        # the registering thread interleaved with the monitor
+        mons = [S('M')] * rng.choice([0, 0, 2, 5, rng.randint(0, 12)])
+        i = j = 0
+        while i < len(reg) or j < len(mons):
+            if j >= len(mons) or (i < len(reg) and rng.random() < 0.6):
+                lab.append(reg[i]); i += 1
+            else:
+                lab.append(mons[j]); j += 1
+        lab += [S(t)] * 2                      # in case it was blocked at the lock
+        alive.append(t)
+        # earlier threads end only now (or later): close() keeps waiting for somebody while t registers
+        for u in list(alive[:-1]):
+            if rng.random() < 0.7:
+                lab.append(['die', u]); alive.remove(u)
+        if rng.random() < 0.3:
+            lab += [S('C')]
+    raises = [t for t in range(1, nthreads + 1) if rng.random() < 0.25]
+    return raises, lab
 
 
 def random_schedule(rng, nthreads, length):
@@ -1093,7 +1173,7 @@ def nontrivial_thread(r) -> bool:
 def _thread_runs(ctx, corr, env, jobs, deadline):
     """jobs: iterable of (kind, raises, schedule).  Runs them on the real class, oracle on each."""
     runs = []
-    hist, sigs = {}, {}
+    hist, sigs, lcls = {}, {}, {}
     seen = set()
     best = {}
     for kind, raises, sched in jobs:
@@ -1109,6 +1189,8 @@ def _thread_runs(ctx, corr, env, jobs, deadline):
             seen.add(key)
             if nontrivial_thread(r):
                 corr.distinct_nontrivial += 1
+        for c in late_classes(r).values():
+            lcls[c] = lcls.get(c, 0) + 1
         for sig, what in oracle_thread(r):
             sigs[sig] = sigs.get(sig, 0) + 1
             if sig not in best or len(r['labels']) < len(best[sig][0]['labels']):
@@ -1124,6 +1206,8 @@ def _thread_runs(ctx, corr, env, jobs, deadline):
                         'that and re-raises the first callback exception (nothing else)'}))
     corr.extra['thread_schedule_kinds'] = hist
     corr.extra['thread_violation_counts'] = sigs
+    # registrations judged, by class (late_classes): 'late'/'chain' are judged like 'before'; 'outside' are not
+    corr.extra['thread_registration_classes'] = lcls
     return runs
 
 
@@ -1225,6 +1309,7 @@ def correspond(ctx) -> Corr:
     quick = ctx.tier == 'quick'
     k1, k2, d1s, kc, kf, nrand, nfine, tmax, trand = (14, 15, [0], 7, 3, 150, 30, 4, 150) if quick else \
         (30, 22, [0, 4, 6, 9], 12, 8, 4000, 400, 5, 3000)
+    nchain = 40 if quick else 800
     deadline = time.time() + (45 if quick else 420)
 
     def jobs():
@@ -1235,6 +1320,9 @@ def correspond(ctx) -> Corr:
             if j.get('half') == 'thread':
                 yield 'corpus', j.get('raises', []), j['schedule']
         yield from exhaustive_schedules(k1, k2, d1s, kc, kf)
+        for _ in range(nchain):
+            raises, s = late_chain_schedule(rng, rng.randint(2, 5))
+            yield 'late-chain', raises, s
         for _ in range(nrand):
             raises, s = random_schedule(rng, rng.randint(1, 4), rng.randint(5, 60))
             yield 'random', raises, s
@@ -1311,6 +1399,9 @@ def search(ctx, broken) -> list:
 
     def jobs():
         yield from exhaustive_schedules(24, 24, [0, 4, 6, 9], 12, 7)
+        for _ in range(600):
+            raises, s = late_chain_schedule(rng, rng.randint(2, 5))
+            yield 'late-chain', raises, s
         for _ in range(4000):
             raises, s = random_schedule(rng, rng.randint(1, 4), rng.randint(5, 80))
             yield 'random', raises, s
